@@ -11,4 +11,4 @@ plan("C20", [T("c20_threads", 3000, 25000), T("c20_race", 2500, 20000, 3, 8)], m
                 "Sequential consistency only; sampling, not proof. Second engine (*_race target): real parallel threads under ThreadSanitizer, whose happens-before analysis sees unsynchronised accesses that the controlled scheduler cannot (a section without lock calls has no decision point); a report or a functional failure there is a violation, replayed 12 times and reported when it shows twice.",
      assumptions=["sequential consistency; preemption only at intercepted operations (DESIGN 4.4)",
                   "at-exit callbacks do not register further callbacks (unspecified by the library)",
-                  "only main and managed threads launch managed threads"])
+                  "in c20_threads only main and managed threads launch managed threads (c20_race also launches them from joinable threads)"])
